@@ -57,6 +57,18 @@ CResp(e) ==
         /\ e.resp.dig = p.dig /\ e.resp.body = p.body /\ e.resp.bodyok
         /\ (e.op.op = "ManGet" => e.resp.ctype = p.mt)
 
+\* C03: the answer to an explicit tag listing; for n <= 0, oversized or non numeric n the property only asks for
+\* a valid (possibly empty) listing: duplicate free, sorted, only current tags after `last`
+CTagsResp(e) ==
+  e.op.op = "TagsList" =>
+    LET L == e.resp.list
+        r == e.op.repo
+    IN /\ e.resp.status = 200 /\ e.resp.listok /\ ~e.resp.panic
+       /\ IF e.op.nc = "open"
+          THEN /\ S(L) \subseteq AfterLast(DOMAIN tag'[r], e.op.last)
+               /\ \A i \in 1..(Len(L) - 1) : TagRank(L[i]) < TagRank(L[i + 1])
+          ELSE L = resp'.list /\ e.resp.link = resp'.link
+
 \* C01: whatever was served hashes to the digest it was served under (measured by the observer with the real hash)
 CIntegrity(e) ==
   \A r \in DOMAIN e.obs : LET o == e.obs[r] IN o.blobsbad = <<>> /\ o.mansbad = <<>> /\ o.tagsbad = <<>>
@@ -78,12 +90,13 @@ CTagList(e) ==
 CRefs(e) ==
   \A r \in DOMAIN e.obs : \A x \in S(e.obs[r].refs) :
      IF ~Cfg.referrers THEN x.st = 404
-     ELSE LET E == {d \in {y \in DOMAIN man'[r] : SubjectOf(y) = x.s} : x.f = "" \/ ATOf(d) = x.f} IN
+     ELSE LET U == {y \in DOMAIN man'[r] : SubjectOf(y) = x.s}
+              E == {d \in U : x.f = "" \/ ATOf(d) = x.f} IN
           /\ x.st = 200
           /\ S(x.list) = E /\ Len(x.list) = Cardinality(E)
           /\ x.bad = <<>>
           /\ x.ct /\ ~x.loop /\ x.warm
-          /\ (x.f # "" => x.fa)
+          /\ ((x.f # "" /\ U # {}) => x.fa)      \* the filter announces itself (not demanded of the empty answer for an unknown subject)
           /\ (Cfg.refLimit > 0 => \A i \in DOMAIN x.pages : x.pages[i] <= Cfg.refLimit)
 
 \* C08: a session exists exactly while the model says it is open; the number of open sessions is exact
@@ -98,7 +111,7 @@ CNoErr(e) ==
   /\ \A r \in DOMAIN e.obs : e.obs[r].errs = <<>>
 
 Clauses(e) ==
-  { <<"resp", CResp(e)>>, <<"integrity", CIntegrity(e)>>, <<"sync.blobs", CSyncBlobs(e)>>,
+  { <<"resp", CResp(e)>>, <<"tagsresp", CTagsResp(e)>>, <<"integrity", CIntegrity(e)>>, <<"sync.blobs", CSyncBlobs(e)>>,
     <<"sync.mans", CSyncMans(e)>>, <<"sync.tags", CSyncTags(e)>>, <<"taglist", CTagList(e)>>,
     <<"refs", CRefs(e)>>, <<"sess", CSess(e)>>, <<"noerr", CNoErr(e)>> }
 
@@ -106,7 +119,7 @@ Clauses(e) ==
 Enforced ==
   [ C01 |-> {"integrity", "resp", "sync.blobs", "sync.mans", "noerr"},
     C02 |-> {"integrity", "resp", "sync.blobs", "sync.mans", "sync.tags", "noerr"},
-    C03 |-> {"resp", "sync.mans", "sync.tags", "taglist", "noerr"},
+    C03 |-> {"resp", "tagsresp", "sync.mans", "sync.tags", "taglist", "noerr"},
     C04 |-> {"resp", "sync.blobs", "sync.mans", "sync.tags", "taglist", "refs", "noerr"},
     C07 |-> {"resp", "refs", "sync.mans", "noerr"},
     C08 |-> {"resp", "sess", "sync.blobs", "noerr"} ]
